@@ -51,13 +51,14 @@ func main() {
 	case "sqlite":
 		c.differ, c.tie = sqlite.DefaultDiff, true
 	case "mysql":
-		c.differ = mysql.DefaultDiff
+		c.differ, c.tie = mysql.DefaultDiff, true
 	case "postgres":
-		c.differ = postgres.DefaultDiff
+		c.differ, c.tie = postgres.DefaultDiff, true
 	default:
 		fmt.Fprintln(os.Stderr, "unknown mode")
 		os.Exit(2)
 	}
+	tokDialect = *mode
 	c.w.Rule = "a case is non-trivial when the differ returned at least one change, an error, or the pair differs in order only (perm); key = canonical case text"
 	c.w.Exhaust = true
 	thorough := *tier == "thorough"
@@ -73,7 +74,7 @@ func main() {
 	}
 	c.w.Set("catalogue_size", total)
 	c.special()
-	if c.tie {
+	if *mode == "sqlite" {
 		c.wild(thorough)
 	}
 	c.w.Close()
@@ -160,7 +161,7 @@ func (c *ctx) one(id, class, desc string, from, to Schema, alias bool, mask int,
 		g2 = build(c.p.dialect, to)
 	}
 	line := ""
-	if c.tie && !alias {
+	if c.tie && !alias && expressible(c.p.dialect, from, to) {
 		line = "S " + strconv.Itoa(mask) + " " + tokSchema(g1) + " " + tokSchema(g2)
 	}
 	cs, err, pan := c.schemaDiff(g1, g2, mask)
@@ -414,7 +415,7 @@ func (c *ctx) tableCase(id, desc string, from, to Schema, tn string, exp []strin
 		return
 	}
 	line := ""
-	if c.tie {
+	if c.tie && expressible(c.p.dialect, from, to) {
 		w1 := []string{hx(g1.Name), "1"}
 		tokTable(t1, &w1)
 		w2 := []string{hx(g2.Name), "1"}
@@ -495,4 +496,33 @@ func (c *ctx) multi(bi int, b Schema, cat []Edit, thorough bool) {
 		c.w.Count(fmt.Sprintf("multi:%d-edits", len(pick)))
 		c.one(c.id("editN", bi), "editN", strings.Join(ds, " + "), from, to, false, mask, exp, true, pick...)
 	}
+}
+
+// expressible: the pair differs in nothing the MySQL/PostgreSQL models have no field for
+// (table attributes other than checks, ENFORCED / NO INHERIT of checks); see DiffDialects.v.
+func expressible(dialect string, from, to Schema) bool {
+	if dialect == "sqlite" {
+		return true
+	}
+	eq := func(a, b *string) bool { return (a == nil) == (b == nil) && (a == nil || *a == *b) }
+	for _, t := range from.Tables {
+		u := to.table(t.Name)
+		if u == nil {
+			continue
+		}
+		if !eq(t.Comment, u.Comment) || !eq(t.Charset, u.Charset) || !eq(t.Collation, u.Collation) || !eq(t.Engine, u.Engine) || t.AutoInc != u.AutoInc {
+			return false
+		}
+	}
+	flags := func(s Schema) bool {
+		for _, t := range s.Tables {
+			for _, k := range t.Checks {
+				if k.NotEnforced || k.NoInherit {
+					return true
+				}
+			}
+		}
+		return false
+	}
+	return !flags(from) && !flags(to)
 }
